@@ -14,12 +14,20 @@ def sh(cmd, **kw):
     return subprocess.run(cmd, shell=isinstance(cmd, str), stdout=subprocess.PIPE, stderr=subprocess.STDOUT, text=True, **kw)
 
 
-def demo(d):
+def demo1(d, arg):
     try:
-        r = sh([os.path.join(d, "demonstration"), WT], cwd=d, timeout=600)  # its own #! line decides the shell
+        r = sh([os.path.join(d, "demonstration"), arg], cwd=d, timeout=1200)  # its own #! line decides the shell
         return r.returncode, r.stdout
     except subprocess.TimeoutExpired as e:
-        return 124, (e.stdout or "") + "\n[timeout]"
+        o = e.stdout or ""
+        return 124, (o.decode("utf-8", "replace") if isinstance(o, bytes) else o) + "\n[timeout]"
+
+
+FORMS = ("", "cproc-qbe", "cproc")  # the argument is the built tree, or (some demonstrations) a binary inside it
+
+
+def demo(d):
+    return [demo1(d, os.path.join(WT, f) if f else WT) for f in FORMS]
 
 
 def main():
@@ -30,18 +38,25 @@ def main():
         assert r.returncode == 0, r.stdout
         try:
             sh("cd %s && ./configure >/dev/null && make -s -j8 2>&1 | tail -2" % WT)
-            rc0, out0 = demo(d)
+            res0 = demo(d)
             a = sh(["git", "-C", WT, "apply", os.path.join(d, "patch.diff")])
             if a.returncode:
                 print("%-24s PATCH DOES NOT APPLY %s" % (name, a.stdout.strip()[:100]))
                 continue
             b = sh("cd %s && make -s -j8 2>&1 | tail -2 && make check 2>&1 | tail -1" % WT)
             tests = b.stdout.strip().splitlines()[-1]
-            rc1, out1 = demo(d)
+            res1 = demo(d)
         finally:
             sh(["git", "-C", "/repo", "worktree", "remove", "--force", WT])
+        # the form of argument under which the unchanged tree is fine and the changed tree is not
+        pick = 0
+        for i in range(len(FORMS)):
+            if res0[i][0] == 0 and not BAD.search(res0[i][1]) and BAD.search(res1[i][1]):
+                pick = i
+                break
+        (rc0, out0), (rc1, out1) = res0[pick], res1[pick]
         v0, v1 = bool(BAD.search(out0)), bool(BAD.search(out1))
-        ok = "170/170" in tests and v1 and not v0
+        ok = "170/170" in tests and v1 and not v0 and rc0 == 0
         mp = os.path.join(d, "meta.json")
         m = json.load(open(mp))
         m["confirmed"] = {"make_check_with_change": tests, "demonstration_unchanged_tree": {"rc": rc0, "reports_violation": v0, "last_line": out0.strip().splitlines()[-1][:160] if out0.strip() else ""},
